@@ -15,9 +15,9 @@ type Entry struct {
 	Path []Step
 	Priv []byte // ser256 of the private key, nil if only the public key is derivable
 	Pub  [33]byte
-	// Alt is non-empty when the key is only reached by replacing the legacy
-	// rule with the standard rule at some hardened step (possible only when
-	// an intermediate private key has a leading zero byte).
+	// Alt is non-empty when the key is only reached by using, at some hardened
+	// step, the other rule than the one btcsuite effectively applies there
+	// (possible only when an intermediate private key has a leading zero byte).
 	Alt string
 }
 
@@ -41,7 +41,7 @@ func (t *Table) Lookup(pub33 []byte) *Entry {
 
 func (t *Table) add(e *Entry) {
 	if old, ok := t.m[e.Pub]; ok && old.Alt == "" {
-		return // the pure legacy derivation wins
+		return // the primary derivation wins
 	}
 	t.m[e.Pub] = e
 }
@@ -84,7 +84,7 @@ func (t *Table) AddAccount(root string, id uint64, prefix []Step, acct *Key, alt
 // Variant is one way of walking a hardened path.
 type Variant struct {
 	Key *Key
-	Alt string // "" = legacy rule at every step
+	Alt string // "" = the effective rule at every step
 }
 
 // HardenedPath derives master/steps... with every step hardened.  rules[i] is
